@@ -123,7 +123,8 @@ def main(argv):
     if jobs:
         from checks.pyvc_worker import _entry
 
-        with mp.get_context("fork").Pool(min(16, len(jobs))) as pool:
+        # one fresh process per function: the z3 context and the fresh-name counters never depend on what a worker did before
+        with mp.get_context("fork").Pool(min(16, len(jobs)), maxtasksperchild=1) as pool:
             results = pool.map(_entry, jobs, chunksize=1)
     for r in results:
         t = r["target"]
